@@ -1,6 +1,7 @@
 (** C10 - Restart from the journal reproduces the pre-crash state at every crash point.
     Only statements closed by [exact]; proofs in HQ.Journal.RestoreProofs / HQ.Journal.Codec. *)
 From HQ Require Import Base.Prelude Journal.Event Journal.Restore Journal.Gen Journal.RestoreProofs Journal.Codec.
+From HQ Require Cluster.Types Cluster.Sys Cluster.Bridge Cluster.BridgeRel Cluster.BridgeInv Cluster.BridgeCor.
 Open Scope N_scope.
 
 (** Every journal the server can write ([grun g0 evs = Some g]: any history of submits into
@@ -47,8 +48,52 @@ Theorem C10_truncate_then_append : forall (A : Type) (c : Codec A),
      = (vs ++ vs', false, length (journal c (vs ++ vs')), false).
 Proof. exact (fun A c H => truncate_then_append c H). Qed.
 
+(** * The tie between the two models: the journal the WHOLE-SYSTEM model writes (component cluster)
+    is a journal in the sense of [grun] (component journal).
+
+    [Bridge.jrun] is [Sys.run] collecting the journal records of every step ([BridgeInv.run_jrun] /
+    [jrun_run]: same final state, the records are the translation of the [OEv] outputs; a submit
+    record carries the task specifications of the operation, as the real record does).
+    For EVERY history of the system model (client requests, deliveries in any order, any solver
+    answers, losses ...; no hypothesis): running the journal through the "journals the server can
+    write" machine either accepts every record and ends in a state related to the job layer by
+    [RelJ] (same uncompleted jobs, open flags, task sets, recorded outcomes, job-id high-water
+    mark), or stops at a TaskStarted / TaskFinished / WorkerConnected / WorkerLost record
+    ([LCore]); it never stops at a Submit, JobOpen, JobClose, JobCompleted, JobCancel, TaskFailed,
+    TasksCanceled or TasksAborted record ([LBad]).  So all job-layer side conditions of [gstep]
+    (validate_submit, "job terminated" for JobCompleted, "job active" for JobCancel, ...) are
+    proved for the system model's journals. *)
+Theorem C10_system_first_reject : forall ops reserve maxfill u s evs,
+  Bridge.jrun (Sys.init_sys reserve maxfill) ops = Ok (s, evs) ->
+  match BridgeRel.lrun g0 (Bridge.journal_of u evs) with
+  | BridgeRel.LOk g => BridgeRel.RelJ (Types.s_hq s) g
+  | BridgeRel.LCore => True
+  | BridgeRel.LBad => False
+  end.
+Proof. exact BridgeInv.sys_journal_first_reject. Qed.
+
+(** System-level C10 (PARTIAL: under the executable hypothesis [core_records_accepted] - no start /
+    finish / worker record of the history is rejected; the unconditional statement is
+    [BridgeInv.sys_journal_producible_full], not proved: it needs the converse of the
+    start-before-finish invariant and frame lemmas for instance ids and the worker counter):
+    restoring the journal of a system history succeeds and yields exactly the abstraction of a
+    journal state related to the final job layer. *)
+Theorem C10_system_restore_partial : forall ops reserve maxfill u s evs,
+  Bridge.jrun (Sys.init_sys reserve maxfill) ops = Ok (s, evs) ->
+  BridgeInv.core_records_accepted u evs = true ->
+  exists r g, restore (Bridge.journal_of u evs) = Ok r /\ view r = abs g /\ BridgeInv.bridge_rel_job s g.
+Proof. exact BridgeCor.sys_restore_partial. Qed.
+
+(** [jrun] is [Sys.run] (same final state). *)
+Theorem C10_system_jrun_is_run : forall s ops s' outs,
+  Sys.run s ops = Ok (s', outs) -> Bridge.jrun s ops = Ok (s', BridgeInv.jevents_of_run s ops).
+Proof. exact (fun s ops => BridgeInv.run_jrun ops s). Qed.
+
 Check C10_restore_refines : forall evs g, grun g0 evs = Some g -> exists r, restore evs = Ok r /\ view r = abs g.
 
+Print Assumptions C10_system_first_reject.
+Print Assumptions C10_system_restore_partial.
+Print Assumptions C10_system_jrun_is_run.
 Print Assumptions C10_restore_total.
 Print Assumptions C10_restore_refines.
 Print Assumptions C10_restore_counters_safe.
